@@ -353,6 +353,22 @@ def synthetic_queries():
             q.append((((v, 1), (f, 1)), ((w_, 1), (g, 1))))
             q.append((((v, 1), (f, -1)), ((w_, 1), (g, -1))))
             q.append((((v, -1), (f, 1)), ((w_, -1), (g, 1))))
+    # two units defined as quotients with different numerator AND denominator units
+    # (Q1 = 2 A/T1, Q2 = 16 B/T2, T1 = 8 T2), in numerators and denominators
+    for x, y in (("Q1", "Q2"), ("Q2", "Q1")):
+        for e in (1, -1, 2, -2):
+            q.append((((x, e),), ((y, e),)))
+        for a, b in (("A", "B"), ("C", "D"), ("second", "second"), ("T1", "T2")):
+            q.append((((a, 1), (x, -1)), ((b, 1), (y, -1))))
+            q.append((((a, 1), (x, 1)), ((b, 1), (y, 1))))
+            q.append((((a, -1), (x, -1)), ((b, -1), (y, -1))))
+        q.append((((x, 1), ("T1", 1)), (("A", 1),)))
+        q.append((((x, 1), ("T2", 1)), (("C", 1),)))
+        q.append((((x, 1), ("T1", 1)), ((y, 1), ("T2", 1))))
+        q.append(((("A", 1), (x, -1)), (("T2", 1),)))
+        q.append(((("T1", 1),), (("D", 1), (x, -1))))
+        q.append((((x, -1),), (("T2", 1), ("B", -1))))
+        q.append(((("T1", 1), ("A", -1)), ((x, -1),)))
     for a in NODES:
         for t in ("second", "hour"):
             q.append(((("Q", 1),), ((a, 1), (t, -1))))
@@ -410,6 +426,17 @@ def _syn_chunk(configs):
         else:
             U["F1"].equals(4 * U["F2"])
         U["Q"].equals(2 * U["A"] / Second)
+        from measured import Time
+
+        for nm, sz in (("T1", 8), ("T2", 1)):
+            U[nm] = Time.unit(f"verif syn {nm}", f"vs{nm}")
+            size[nm] = Decimal(sz)
+        U["T1"].equals(8 * U["T2"])
+        for nm, sz in (("Q1", "0.25"), ("Q2", 32)):
+            U[nm] = Speed.unit(f"verif syn {nm}", f"vs{nm}")
+            size[nm] = Decimal(sz)
+        U["Q1"].equals(2 * U["A"] / U["T1"])
+        U["Q2"].equals(16 * U["B"] / U["T2"])
         snap = w.snapshot()
 
         def build(spec):
